@@ -4,11 +4,11 @@ package main
 // Upgrade and replayer code. Case formats are documented in lean/Driver/MessageD.lean.
 
 import (
-	"io"
 	"bytes"
 	"encoding/json"
 	"errors"
 	"fmt"
+	"io"
 	"math/rand"
 	"net/http"
 	"net/http/httptest"
@@ -653,6 +653,46 @@ func runCENC(args []string) string {
 		}(i)
 	}
 	wg.Wait()
+	if b := bad.Load(); b != nil {
+		return b.(string)
+	}
+	// … and clones taken from one shared template by several goroutines at once (Clone reads its receiver, it does not
+	// write to it): every clone is its own message, the template stays what it was
+	for round := 0; round < 3000 && bad.Load() == nil; round++ {
+		shared := &sse.Message{Type: sse.Type("tick")}
+		for l := 0; l < 3+round%4; l++ {
+			shared.AppendData(fmt.Sprintf("template line %d", l)) // 3, 5, 6, 7 lines: the chunk array has spare capacity
+		}
+		wantShared := shared.String()
+		var start atomic.Bool
+		var ready, cw sync.WaitGroup
+		clones := make([]*sse.Message, workers)
+		for i := 0; i < workers; i++ {
+			ready.Add(1)
+			cw.Add(1)
+			go func(i int) {
+				defer cw.Done()
+				ready.Done()
+				for !start.Load() {
+				}
+				c := shared.Clone()
+				c.AppendData(fmt.Sprintf("line of clone %d in round %d", i, round))
+				clones[i] = c
+			}(i)
+		}
+		ready.Wait()
+		start.Store(true)
+		cw.Wait()
+		if got := shared.String(); got != wantShared {
+			bad.Store("bad:template-changed-by-concurrent-clones-" + hxs(got))
+		}
+		for i, c := range clones {
+			w := strings.TrimSuffix(wantShared, "\n") + fmt.Sprintf("data: line of clone %d in round %d\n\n", i, round)
+			if got := c.String(); got != w {
+				bad.Store(fmt.Sprintf("bad:concurrent-clone-%d-encoded-as-%s", i, hxs(got)))
+			}
+		}
+	}
 	if b := bad.Load(); b != nil {
 		return b.(string)
 	}
